@@ -17,8 +17,14 @@ correspondence check in `harness/c03.py`)
   a fraction alpha of the sample lies beyond it           exceed_count_bounds, exceed_fraction_bounds
   successive normals advance by exactly the step          direction_value, successive_normals_advance_by_step
   ... and cover the full circle once                      normals_cover_circle_once (index form),
-                                                          closing_advance_is_step (N*deg = 360)
-  n = int(100/alpha)                                      default_n
+                                                          closing_advance_is_step (N*deg = 360; plain algebra),
+                                                          arange_exact_count + oneTurn_exact_count: over an exact
+                                                          field the arange has N+1 entries, the slice N directions
+     NUMBER of directions at Float (hypothesis `hn` of direction_value / oneTurn_length: the arange has at
+     least N+1 entries after rounding)                    observed per run (model grid = numpy grid, oracle M = N)
+  n = int(100/alpha)                                      default_n (definitional: conclusion = floor hypothesis),
+                                                          default_n_unique (the only k with k ≤ 100/alpha < k+1)
+  first direction / coordinates[0]                        not fixed by the property (correspondence only)
   the code before the repair violates the closing clause  oldPairs_spec, closing_pair_is_degenerate
 
 Carrier: any field (linear ordered where order matters).  `cos`/`sin` are uninterpreted
@@ -475,6 +481,57 @@ theorem default_n (fl : α → Nat) (alpha : α)
       100 / alpha < ((defaultN fl 100 alpha : Nat) : α) + 1 := hfl
 
 end quantile
+
+/-! ### gap-closing round: the count of directions in exact arithmetic, uniqueness of the default n -/
+
+/-- **the direction grid has one turn plus one entry in exact arithmetic**: for the `arange` of the code
+(`start = pi/2 + 2*rad_step`, `stop = -3*pi/2 + rad_step`, `step = -rad_step`) the quotient
+`(stop - start)/step`, whose ceiling is the number of entries, is exactly `N + 1` when `N * deg_step = 360`.
+So over the reals hypothesis `hn : nDir + 1 ≤ n` of `direction_value` / `oneTurn_length` holds with equality;
+at `Float` the quotient may round up past `N + 1` (one or two extra entries, defect #10), which is why the
+code slices `[1 : N+1]` and why the count at `Float` is compared per run. -/
+theorem arange_exact_count {α} [Field α] [CharZero α] (pi deg : α) (nDir : Nat) (hpi : pi ≠ 0)
+    (hdeg : deg ≠ 0) (hdiv : (nDir : α) * deg = 360) :
+    ((-(3 / 2) * pi + deg * pi / 180) - (1 / 2 * pi + 2 * (deg * pi / 180))) / (-1 * (deg * pi / 180))
+      = (nDir : α) + 1 := by
+  have h180 : (180 : α) ≠ 0 := by norm_num
+  have hrs : -1 * (deg * pi / 180) ≠ 0 := by
+    simp [hdeg, hpi]
+  rw [div_eq_iff hrs]
+  linear_combination (pi / 180) * hdiv
+
+/-- with exactly `N + 1` arange entries the slice `[1 : N+1]` has exactly `N` directions -/
+theorem oneTurn_exact_count {α} [Field α] (start step : α) (nDir : Nat) :
+    (oneTurn nDir (arangeVals (fun k : Nat => (k : α)) start step (nDir + 1))).length = nDir := by
+  apply oneTurn_length
+  simp [arangeVals]
+
+section
+variable {α : Type} [Field α] [LinearOrder α] [IsStrictOrderedRing α]
+
+/-- `n = int(100/alpha)` is THE integer `k` with `k ≤ 100/alpha < k + 1` (given that `fl` is a floor at
+this one argument): the default sample size is determined by `alpha` alone. -/
+theorem default_n_unique (fl : α → Nat) (alpha : α)
+    (hfl : ((fl (100 / alpha) : Nat) : α) ≤ 100 / alpha ∧ 100 / alpha < (fl (100 / alpha) : Nat) + 1)
+    (k : Nat) (hk : (k : α) ≤ 100 / alpha ∧ 100 / alpha < (k : α) + 1) :
+    defaultN fl 100 alpha = k := by
+  unfold defaultN
+  rcases Nat.lt_trichotomy (fl (100 / alpha)) k with h | h | h
+  · exfalso
+    have h1 : ((fl (100 / alpha) : Nat) : α) + 1 ≤ (k : α) := by exact_mod_cast h
+    linarith [hfl.2, hk.1]
+  · exact h
+  · exfalso
+    have h1 : (k : α) + 1 ≤ ((fl (100 / alpha) : Nat) : α) := by exact_mod_cast h
+    linarith [hfl.1, hk.2]
+end
+
+example : defaultN (fun _ : ℚ => 2000) 100 (5 / 100) = 2000 :=
+  default_n_unique (fun _ : ℚ => 2000) (5 / 100) (by norm_num) 2000 (by norm_num)
+
+example : ((-(3 / 2) * (3 : ℚ) + 90 * 3 / 180) - (1 / 2 * 3 + 2 * (90 * 3 / 180))) / (-1 * (90 * 3 / 180)) = ((4 : Nat) : ℚ) + 1 :=
+  arange_exact_count 3 90 4 (by norm_num) (by norm_num) (by norm_num)
+
 
 /-! ### non-vacuity: concrete instances of the hypotheses -/
 
